@@ -83,7 +83,7 @@ def r2(ctx: Ctx) -> None:
 def r3(ctx: Ctx) -> None:
     for name in ("submitted_order", "canceled_order", "executed_order"):
         sites = ctx.cg.sites_by_name(name)
-        ctx.require(len(sites) >= 2, f"call sites of {name} not found")
+        ctx.require(len(sites) >= 1, f"call sites of {name} not found")
         for s in sites:
             ok = caller_ok(ctx, s.caller, lambda g: g.qualname == HO or (g.name == name and g.cls is not None and ctx.program.is_subclass(g.cls.name, "Agent")))
             ctx.check(ok, s.caller, s.node, f"caller of {name}", f"{HO} (or an agent's own override delegating to its base)", s.caller.qualname)
